@@ -3,6 +3,7 @@ from __future__ import annotations
 
 import ast
 
+from ..cfg import cfg_of
 from ..dataflow import derives, rd_of
 from ..loader import dotted, walk_no_nested, strip_docstring
 from . import c08
@@ -109,7 +110,33 @@ def sibling_counts(ctx, rule="C16.sibling"):
     ctx.floor(rule, 2)
 
 
+def per_mode_order(ctx, rule="C16.labels"):
+    """observables that return one entry per requested mode answer in the order of the request"""
+    from .common_guard import raise_facts
+    ctx.explain(f"{rule}: (per-mode results) `displacement(modes)` of every state class returns one entry per requested mode IN THE ORDER "
+                "OF THE REQUEST: the index array it selects with is not a sorted function of `modes` - unless a raising guard "
+                "`modes != sorted(modes)` dominates it (then the request is ascending anyway).")
+    for cn in ("BaseGaussianState", "BaseBosonicState", "BaseFockState"):
+        cls = ctx.tree.cls(ST, cn)
+        f = cls.methods.get("displacement")
+        if f is None or "modes" not in f.params:
+            continue
+        cfg = cfg_of(f.node)
+        guarded = [n for n, exc, fs in raise_facts(f) if any("sorted(" in ast.unparse(a) for a, v in fs)]
+        bad = None
+        for c in walk_no_nested(f.node):
+            if isinstance(c, ast.Call) and (dotted(c.func) or "").split(".")[-1] in ("sort", "sorted", "argsort", "unique") and c.args:
+                ids = cfg.node_of_expr(c)
+                d = derives(f.node, c.args[0], ids[0] if ids else None)
+                if "modes" in d.params or any(dd.var == "modes" for dd in d.defs):
+                    if not (ids and any(cfg.dominates(g.id, ids[0]) for g in guarded)):
+                        bad = c
+        ctx.ob(rule, f.site, bad is None, "" if bad is None else f"`{ast.unparse(bad)[:60]}`: {cn}.displacement([1, 0]) answers in ascending "
+               "mode order, not in the order of the request", role="per-mode-order", line=(bad.lineno if bad is not None else f.node.lineno))
+
+
 def rules(ctx):
+    per_mode_order(ctx)
     layout(ctx)
     sibling_counts(ctx)
     param_flow(ctx)
